@@ -103,7 +103,12 @@ impl Db {
     }
 
     async fn close(self) {
-        self.store.pool().close().await;
+        // Drop the store first: a transaction left in its slot would keep a connection, and
+        // closing the pool waits for all connections. The bounded wait is cleanup only: clones
+        // of the store held by stuck tasks of a broken run can keep a transaction alive.
+        let pool = self.store.pool().clone();
+        drop(self.store);
+        let _ = tokio::time::timeout(Duration::from_secs(5), pool.close()).await;
         if let Some(path) = self.file {
             for suffix in ["", "-journal", "-wal", "-shm"] {
                 let _ = std::fs::remove_file(format!("{}{suffix}", path.display()));
@@ -125,6 +130,48 @@ async fn do_write(store: &SqliteStore, w: &str, t: i64, j: i64, k: &str) -> Resu
                 .bind(&k)
                 .execute(&mut **tx)
                 .await?;
+            sqlx::query("INSERT OR REPLACE INTO kv (k, w, t, j) VALUES (?, ?, ?, ?)")
+                .bind(&k)
+                .bind(&w)
+                .bind(t)
+                .bind(j)
+                .execute(&mut **tx)
+                .await?;
+            let seen: i64 = sqlx::query_scalar("SELECT COUNT(*) FROM log").fetch_one(&mut **tx).await?;
+            Ok(seen)
+        })
+        .await
+}
+
+/// A write that tells when it is inside `tx(..)` (it holds the slot lock and has executed its
+/// first statement) and then waits for `go` before it executes the rest.
+async fn gated_write(
+    store: &SqliteStore,
+    w: &str,
+    t: i64,
+    j: i64,
+    k: &str,
+    inside: Arc<std::sync::atomic::AtomicBool>,
+    inside_tx: Option<oneshot::Sender<()>>,
+    go: Option<oneshot::Receiver<()>>,
+) -> Result<i64, SqliteError> {
+    let (w, k) = (w.to_string(), k.to_string());
+    store
+        .tx(async move |tx| {
+            inside.store(true, std::sync::atomic::Ordering::SeqCst);
+            sqlx::query("INSERT INTO log (w, t, j, k) VALUES (?, ?, ?, ?)")
+                .bind(&w)
+                .bind(t)
+                .bind(j)
+                .bind(&k)
+                .execute(&mut **tx)
+                .await?;
+            if let Some(s) = inside_tx {
+                let _ = s.send(());
+            }
+            if let Some(go) = go {
+                let _ = go.await;
+            }
             sqlx::query("INSERT OR REPLACE INTO kv (k, w, t, j) VALUES (?, ?, ?, ?)")
                 .bind(&k)
                 .bind(&w)
@@ -225,11 +272,21 @@ enum Ending {
     CancelInRollback,
     /// begin, writes, the task is aborted while one more write is in flight
     CancelInWrite,
+    /// begin, writes, one more write is started and kept pending (it holds the slot lock), the
+    /// permit is dropped, then the pending write future is dropped
+    DropInFlightThenDrop,
+    /// ... then the pending write is driven to completion
+    DropInFlightThenFinish,
+    /// begin, writes, a second task working in the same transaction is inside `tx(..)` (holds the
+    /// slot lock) when the permit is dropped; then that task is aborted
+    DropWhileHelperThenAbort,
+    /// ... then that task finishes its call
+    DropWhileHelperThenFinish,
 }
 
 const WRITER_PANIC: &str = "writer panics inside its transaction";
 
-const ENDINGS: [Ending; 16] = [
+const ENDINGS: [Ending; 22] = [
     Ending::CommitMacro,
     Ending::Commit,
     Ending::Rollback,
@@ -247,6 +304,12 @@ const ENDINGS: [Ending; 16] = [
     Ending::CancelInCommit,
     Ending::CancelInRollback,
     Ending::CancelInWrite,
+    Ending::DropInFlightThenDrop,
+    Ending::DropInFlightThenDrop,
+    Ending::DropInFlightThenFinish,
+    Ending::DropWhileHelperThenAbort,
+    Ending::DropWhileHelperThenAbort,
+    Ending::DropWhileHelperThenFinish,
 ];
 
 #[derive(Clone, Debug)]
@@ -296,6 +359,7 @@ async fn macro_transaction(store: &SqliteStore, w: &str, t: i64, plan: &Plan, fa
         emit(json!({"ev": "BeginRet", "w": w, "t": t}));
         for (j, k) in plan.keys.iter().enumerate() {
             yields(y(plan, 1 + j)).await;
+            emit(json!({"ev": "WriteCall", "w": w, "t": t, "j": j, "k": k}));
             let seen = match do_write(store, w, t, j as i64, k).await {
                 Ok(seen) => seen,
                 Err(e) => {
@@ -308,9 +372,12 @@ async fn macro_transaction(store: &SqliteStore, w: &str, t: i64, plan: &Plan, fa
         }
         yields(y(plan, 9)).await;
         if fail {
-            // the next statement fails and `?` drops the permit: nothing observable happens in between
-            emit(json!({"ev": "PermitDrop", "w": w, "t": t, "why": "error"}));
-            failing_statement(store).await?;
+            // a failing statement; leaving the scope with the error (what `?` does) drops the permit
+            emit(json!({"ev": "WriteCall", "w": w, "t": t, "j": plan.keys.len(), "k": "none"}));
+            if let Err(e) = failing_statement(store).await {
+                emit(json!({"ev": "PermitDrop", "w": w, "t": t, "why": "error"}));
+                return Err(e);
+            }
         }
     });
     Ok(())
@@ -360,6 +427,7 @@ async fn transaction_task(
     if plan.ending != Ending::CancelInBegin {
         for (j, k) in plan.keys.iter().enumerate() {
             yields(y(&plan, 1 + j)).await;
+            emit(json!({"ev": "WriteCall", "w": w, "t": t, "j": j, "k": k}));
             let seen = match do_write(&store, &w, t, j as i64, k).await {
                 Ok(seen) => seen,
                 Err(e) => {
@@ -416,6 +484,7 @@ async fn transaction_task(
         }
         Ending::CancelInWrite => {
             let j = plan.keys.len() as i64;
+            emit(json!({"ev": "WriteCall", "w": w, "t": t, "j": j, "k": "k1"}));
             let write = do_write(&store, &w, t, j, "k1");
             let mut write = std::pin::pin!(write);
             // cut in the middle, the transaction ends like a dropped permit (whether the statement
@@ -436,6 +505,74 @@ async fn transaction_task(
             emit(json!({"ev": "PermitDrop", "w": w, "t": t, "why": "cancel"}));
             let _permit = permit;
             std::future::pending::<()>().await;
+            Ok(())
+        }
+        Ending::DropInFlightThenDrop | Ending::DropInFlightThenFinish => {
+            // the writer keeps a started query future alive and drops the permit meanwhile
+            let j = plan.keys.len() as i64;
+            emit(json!({"ev": "WriteCall", "w": w, "t": t, "j": j, "k": "k2"}));
+            let inside = Arc::new(std::sync::atomic::AtomicBool::new(false));
+            let s2 = store.clone();
+            let (w2, inside2) = (w.clone(), inside.clone());
+            let mut write: Pin<Box<dyn Future<Output = Result<i64, SqliteError>> + Send>> =
+                Box::pin(async move { gated_write(&s2, &w2, t, j, "k2", inside2, None, None).await });
+            match futures_util::poll!(write.as_mut()) {
+                Poll::Pending if inside.load(std::sync::atomic::Ordering::SeqCst) => {
+                    // the call is in flight and holds the slot lock
+                    emit(json!({"ev": "PermitDrop", "w": w, "t": t, "why": "write-in-flight"}));
+                    drop(permit);
+                    yields(y(&plan, 8)).await;
+                    if plan.ending == Ending::DropInFlightThenFinish {
+                        let _ = write.await;
+                    } else {
+                        drop(write);
+                    }
+                    Ok(())
+                }
+                Poll::Pending => {
+                    // it did not get as far as the lock in one poll: an ordinary write, then drop
+                    let seen = write.await.map_err(|e| format!("write failed: {e}"))?;
+                    emit(json!({"ev": "Write", "w": w, "t": t, "j": j, "k": "k2", "seen": seen}));
+                    emit(json!({"ev": "PermitDrop", "w": w, "t": t, "why": "drop"}));
+                    drop(permit);
+                    Ok(())
+                }
+                Poll::Ready(r) => {
+                    let seen = r.map_err(|e| format!("write failed: {e}"))?;
+                    emit(json!({"ev": "Write", "w": w, "t": t, "j": j, "k": "k2", "seen": seen}));
+                    emit(json!({"ev": "PermitDrop", "w": w, "t": t, "why": "drop"}));
+                    drop(permit);
+                    Ok(())
+                }
+            }
+        }
+        Ending::DropWhileHelperThenAbort | Ending::DropWhileHelperThenFinish => {
+            // a second task works inside the same transaction ("Transaction II" in the docs of
+            // SqliteStore); the permit holder aborts while that task is inside tx(..)
+            let j = plan.keys.len() as i64;
+            let (inside_tx, inside_rx) = oneshot::channel();
+            let (go_tx, go_rx) = oneshot::channel();
+            let (s2, w2) = (store.clone(), w.clone());
+            let helper = tokio::spawn(async move {
+                emit(json!({"ev": "Spawn", "w": w2, "task": tokio::task::id().to_string()}));
+                emit(json!({"ev": "WriteCall", "w": w2, "t": t, "j": j, "k": "k3"}));
+                let inside = Arc::new(std::sync::atomic::AtomicBool::new(false));
+                gated_write(&s2, &w2, t, j, "k3", inside, Some(inside_tx), Some(go_rx)).await
+            });
+            if inside_rx.await.is_err() {
+                let _ = helper.await;
+                emit(json!({"ev": "PermitDrop", "w": w, "t": t, "why": "helper-failed"}));
+                return Err("the helper task did not get into tx(..)".into());
+            }
+            emit(json!({"ev": "PermitDrop", "w": w, "t": t, "why": "helper-in-flight"}));
+            drop(permit);
+            yields(y(&plan, 8)).await;
+            if plan.ending == Ending::DropWhileHelperThenFinish {
+                let _ = go_tx.send(());
+            } else {
+                helper.abort();
+            }
+            let _ = helper.await;
             Ok(())
         }
         Ending::CommitMacro | Ending::ErrorMacro => unreachable!(),
@@ -558,6 +695,7 @@ fn record_run(rng: &mut Rng, run: usize, kind: &'static str) -> RunResult {
                     select_error = Some(e.to_string());
                 }
             }
+            drop(store);
             db.close().await;
         }
         let problems = (problems, select_error);
@@ -596,6 +734,8 @@ fn expand(ev: &Value) -> Vec<Value> {
     match name {
         "sqlite.acquired" => vec![with("Acquired")],
         "sqlite.begin" => vec![with("Begin")],
+        "sqlite.tx.locked" => vec![with("TxLocked")],
+        "sqlite.tx.unlocked" => vec![with("TxUnlocked")],
         "sqlite.commit.ok" => vec![with("Commit"), with("Release")],
         // a failed COMMIT drops the sqlx transaction, which rolls it back
         "sqlite.commit.err" | "sqlite.rollback.ok" | "sqlite.rollback.err" => vec![with("Rollback"), with("Release")],
@@ -612,7 +752,7 @@ fn record(args: &Args) {
     let mut trace = TraceWriter::create(args.out.as_ref().expect("--out"));
     let mut out = Outcome::new(
         args,
-        "seeded random runs of 2-5 concurrent writers x 1-4 transactions (0-3 writes, 11 ways to end, random yields) on a \
+        "seeded random runs of 2-5 concurrent writers x 1-4 transactions (0-3 writes, 15 ways to end, random yields) on a \
          multi-thread runtime against a real SQLite store (alternating in-memory / file-backed pool); evaluation = one run; \
          non-trivial = a run with at least one committed and one aborted transaction; distinct by event sequence",
     );
@@ -802,6 +942,18 @@ impl<T> Future for PollOnce<'_, T> {
     }
 }
 
+/// `drive` to the end for futures that call `store.tx(..)` once: the call parks under the slot
+/// lock (schedule point `sqlite.tx.locked`) and is let go at once.
+async fn drive_through_lock<T>(actor: &str, fut: &mut Fut<T>) -> Stop<T> {
+    match drive(actor, fut, || is_parked(P_TX_LOCKED, actor), None).await {
+        Stop::Cond => {
+            release(P_TX_LOCKED, actor);
+            drive(actor, fut, || false, None).await
+        }
+        other => other,
+    }
+}
+
 /// Lets spawned tasks run until `cond` holds.
 async fn settle(cond: impl Fn() -> bool) -> bool {
     let start = Instant::now();
@@ -824,6 +976,10 @@ enum WState {
     /// `begin()` called; pending on the semaphore or parked at `sqlite.begin.acquired`
     Beginning(Fut<Result<TransactionPermit, SqliteError>>),
     InTx(TransactionPermit),
+    /// a `tx(..)` call of the transaction is in flight, parked under the slot lock; `true`: it has an effect
+    Writing(TransactionPermit, Fut<Result<i64, SqliteError>>, bool),
+    /// the permit was dropped while that call was in flight
+    Orphan(Fut<Result<i64, SqliteError>>),
     /// `commit` / `rollback` parked before the permit is released
     Ending(&'static str, Fut<Result<(), SqliteError>>),
 }
@@ -836,6 +992,7 @@ struct Writer {
 }
 
 const P_ACQUIRED: &str = "sqlite.begin.acquired";
+const P_TX_LOCKED: &str = "sqlite.tx.locked";
 const P_COMMIT: &str = "sqlite.commit.done";
 const P_ROLLBACK: &str = "sqlite.rollback.done";
 const P_RB_START: &str = "sqlite.auto_rollback.start";
@@ -906,6 +1063,7 @@ async fn replay_behaviour(b: &Value, kind: &str, id: u64, counters: &mut BTreeMa
     for _ in 0..4 {
         tokio::task::yield_now().await;
     }
+    drop(store);
     db.close().await;
     result
 }
@@ -1006,21 +1164,74 @@ async fn replay_steps(
                 forget_cancelled();
                 writer.t += 1;
             }
-            "TxWrite" => {
+            "LockSlot" => {
+                let WState::InTx(permit) = std::mem::replace(&mut writer.state, WState::Idle) else {
+                    return Err(("harness-out-of-sync", at("writer holds no permit")));
+                };
                 let k = step["k"].as_str().expect("k").to_string();
+                let effect = k != "none";
                 let (s, name, t, j) = (store.clone(), w.clone(), writer.t, writer.j);
-                let mut fut: Fut<Result<i64, SqliteError>> = Box::pin(async move { do_write(&s, &name, t, j, &k).await });
-                match drive(&w, &mut fut, || false, None).await {
-                    Stop::Ready(Ok(seen)) => {
+                let mut fut: Fut<Result<i64, SqliteError>> = if effect {
+                    Box::pin(async move { do_write(&s, &name, t, j, &k).await })
+                } else {
+                    // a call without effect: the statement fails, the transaction stays usable
+                    Box::pin(async move { failing_statement(&s).await.map(|_| -1) })
+                };
+                // the call takes the slot lock and parks under it
+                match drive(&w, &mut fut, || is_parked(P_TX_LOCKED, &w), None).await {
+                    Stop::Cond => writer.state = WState::Writing(permit, fut, effect),
+                    other => return Err(("write-misbehaves", at(&stop_name(&other)))),
+                }
+            }
+            "UnlockSlot" => {
+                let WState::Writing(permit, mut fut, effect) = std::mem::replace(&mut writer.state, WState::Idle) else {
+                    return Err(("harness-out-of-sync", at("no call in flight")));
+                };
+                release(P_TX_LOCKED, &w);
+                match (drive(&w, &mut fut, || false, None).await, effect) {
+                    (Stop::Ready(Ok(seen)), true) => {
                         let expect = after["ndb"].as_i64().unwrap() + after["ndirty"].as_i64().unwrap();
                         if seen != expect {
                             return Err(("transaction-sees-wrong-rows", at(&format!("{seen} rows visible inside the transaction, specification says {expect}"))));
                         }
+                        writer.j += 1;
                     }
-                    Stop::Ready(Err(e)) => return Err(("write-fails", at(&format!("{e}")))),
-                    other => return Err(("write-misbehaves", at(&stop_name(&other)))),
+                    (Stop::Ready(Err(_)), false) => {}
+                    (Stop::Ready(Ok(_)), false) => return Err(("harness-out-of-sync", at("the failing statement succeeded"))),
+                    (Stop::Ready(Err(e)), true) => return Err(("write-fails", at(&format!("{e}")))),
+                    (other, _) => return Err(("write-misbehaves", at(&stop_name(&other)))),
                 }
-                writer.j += 1;
+                writer.state = WState::InTx(permit);
+            }
+            "DropPermitInFlight" => {
+                // the permit goes away while the call in flight holds the slot lock
+                let WState::Writing(permit, fut, _) = std::mem::replace(&mut writer.state, WState::Idle) else {
+                    return Err(("harness-out-of-sync", at("no call in flight")));
+                };
+                drop(permit);
+                writer.state = WState::Orphan(fut);
+                let n = after["rb_spawned"].as_u64().unwrap() as usize;
+                if !settle_for(|| count_parked(P_RB_START) >= n, 64).await {
+                    return Err(("rollback-task-not-spawned", at("no rollback task showed up after the permit was dropped")));
+                }
+            }
+            "OrphanEnds" => {
+                let WState::Orphan(mut fut) = std::mem::replace(&mut writer.state, WState::Idle) else {
+                    return Err(("harness-out-of-sync", at("no abandoned call in flight")));
+                };
+                if step["why"] == "finished" {
+                    *counters.entry("orphan:finished".into()).or_insert(0) += 1;
+                    release(P_TX_LOCKED, &w);
+                    match drive(&w, &mut fut, || false, None).await {
+                        Stop::Ready(_) => {}
+                        other => return Err(("write-misbehaves", at(&stop_name(&other)))),
+                    }
+                } else {
+                    *counters.entry("orphan:dropped".into()).or_insert(0) += 1;
+                    drop(fut);
+                    forget_cancelled();
+                }
+                writer.t += 1;
             }
             "TakeCommit" | "TakeRollback" => {
                 let WState::InTx(permit) = std::mem::replace(&mut writer.state, WState::Idle) else {
@@ -1059,7 +1270,7 @@ async fn replay_steps(
                         // a failing statement, then what `?` does: leave the scope with the permit
                         let s = store.clone();
                         let mut fut: Fut<Result<(), SqliteError>> = Box::pin(async move { failing_statement(&s).await });
-                        match drive(&w, &mut fut, || false, None).await {
+                        match drive_through_lock(&w, &mut fut).await {
                             Stop::Ready(Err(_)) => {}
                             Stop::Ready(Ok(())) => return Err(("harness-out-of-sync", at("the failing statement succeeded"))),
                             other => return Err(("write-misbehaves", at(&stop_name(&other)))),
@@ -1089,11 +1300,14 @@ async fn replay_steps(
                     return Err(("rollback-task-not-spawned", at("no rollback task showed up after the permit was dropped")));
                 }
             }
-            "RbTake" => {
+            "RbStart" => {
+                // the task runs and asks for the slot lock: it rolls back at once, or it has to
+                // wait for the tx(..) call in flight (checked below: it may not be through)
                 if !release(P_RB_START, "rb") {
                     return Err(("rollback-task-not-spawned", at("no rollback task is waiting to start")));
                 }
-                if !settle(|| is_parked(P_RB_DONE, "rb")).await {
+                let taken = after["rb_taken"].as_u64().unwrap() as usize;
+                if after["rb_waiting"].as_u64().unwrap() == 0 && !settle(|| count_parked(P_RB_DONE) >= taken).await {
                     return Err(("rollback-task-does-not-finish", at("the rollback task never reached the point before releasing the permit")));
                 }
             }
@@ -1177,6 +1391,15 @@ async fn check_state(
     }
     // 2. rollback tasks
     let (spawned, taken) = (after["rb_spawned"].as_u64().unwrap() as usize, after["rb_taken"].as_u64().unwrap() as usize);
+    if after["rb_waiting"].as_u64().unwrap() > 0 {
+        // a rollback task waits for the slot lock held by a tx(..) call in flight: give it the
+        // chance to do something else (it needs no I/O to get anywhere it should not be)
+        settle_for(|| false, 16).await;
+    }
+    // a task that got the slot lock handed over rolls back (I/O) and parks before the release
+    if !settle(|| count_parked(P_RB_DONE) >= taken).await {
+        return Err(("rollback-task-does-not-finish", at("a rollback task that owns the slot lock never reached the point before releasing the permit")));
+    }
     if count_parked(P_RB_START) != spawned || count_parked(P_RB_DONE) != taken {
         return Err((
             "rollback-tasks-differ",
@@ -1231,6 +1454,12 @@ fn replay(args: &Args) {
         if b["kind"].as_str() != Some("sqlitetx") {
             eprintln!("unknown behaviour kind: {b}");
             std::process::exit(2);
+        }
+        if out.violations_total >= 8 {
+            // the tree is broken: no need to force the remaining schedules (a broken store can make
+            // every one of them wait for sqlx's 30 s pool timeout)
+            out.count("schedules_skipped_after_violations");
+            continue;
         }
         // a stored failing case carries the pool kind it failed with
         let kind = b.get("store").and_then(|s| s.as_str()).map(|s| if s == "file" { "file" } else { "memory" })
